@@ -58,13 +58,13 @@ struct PolyDom : CellSpace<PolyDom> {
         {"point(-1,3)", {GN('p', {-1, 3})}, false},
         {"ray(0,0)+(1,1)", {GN('p', {0, 0}), GN('r', {1, 1})}, false},
         {"point(1/2,-2)", {GN('p', {1, -4}, 2)}, false},
+        {"line(0,-3)+(1,0)", {GN('p', {0, -3}), GN('l', {1, 0})}, false},
         {"open-square(0,1)^2", {GN('c', {0, 0}), GN('c', {1, 0}), GN('c', {0, 1}), GN('c', {1, 1}), GN('p', {1, 1}, 2)}, true},
         {"triangle(0,0)(4,0)(0,4)", {GN('p', {0, 0}), GN('p', {4, 0}), GN('p', {0, 4})}, false},
         {"ray(0,2)+(-1,0)", {GN('p', {0, 2}), GN('r', {-1, 0})}, false},
         {"halfopen-segment[(0,0),(3,0))", {GN('p', {0, 0}), GN('c', {3, 0})}, true},
         {"segment(1,1)-(2,4)", {GN('p', {1, 1}), GN('p', {2, 4})}, false},
         {"halfplane A+B<=-2", {GN('p', {-1, -1}), GN('l', {1, -1}), GN('r', {-1, -1})}, false},
-        {"line(0,-3)+(1,0)", {GN('p', {0, -3}), GN('l', {1, 0})}, false},
         {"open-halfplane A>3", {GN('c', {3, 0}), GN('p', {4, 0}), GN('l', {0, 1}), GN('r', {1, 0})}, true},
         {"point(5,5)", {GN('p', {5, 5})}, false},
       };
@@ -79,6 +79,7 @@ struct PolyDom : CellSpace<PolyDom> {
         {"halfopen[1,2)", {GN('p', {1}), GN('c', {2})}, true},
         {"ray<=-3", {GN('p', {-3}), GN('r', {-1})}, false},
         {"point(7/3)", {GN('p', {7}, 3)}, false},
+        {"line", {GN('p', {0}), GN('l', {1})}, false},
       };
     }
     for (size_t i = 0; i < sp.size(); ++i) {
@@ -201,10 +202,13 @@ struct PolyDom : CellSpace<PolyDom> {
     std::vector<CN> l;
     if (dim == 2) {
       l = { CN(LE({-1, 0}, 3), GE), CN(LE({0, -1}, 4), GE), CN(LE({1, 0}, 1), GE), CN(LE({-1, -1}, 5), GE), CN(LE({1, -1}, 2), GE), CN(LE({0, 1}, 0), ref::EQ) };
-      if (nnc) l.push_back(CN(LE({-1, 0}, 4), GT));
+      // NNC: strict limits in BOTH orientations across every line direction of the menu (a line is stored with one orientation
+      // only, and the selection of the limiting constraints evaluates the sign of the scalar product with it); the capped
+      // quick-tier list (first cap-1 and last) keeps A > -3 and A < 4
+      if (nnc) { l.insert(l.begin() + 2, CN(LE({1, 0}, 3), GT)); l.push_back(CN(LE({0, 1}, 4), GT)); l.push_back(CN(LE({-1, -1}, 6), GT)); l.push_back(CN(LE({-1, 0}, 4), GT)); }
     } else {
       l = { CN(LE({-1}, 3), GE), CN(LE({1}, 1), GE), CN(LE({-2}, 5), GE), CN(LE({1}, 0), ref::EQ) };
-      if (nnc) l.push_back(CN(LE({-1}, 4), GT));
+      if (nnc) { l.insert(l.begin() + 2, CN(LE({1}, 3), GT)); l.push_back(CN(LE({-1}, 4), GT)); }
     }
     return l;
   }
